@@ -58,6 +58,11 @@ SCALAR = {"int": "1", "long": "1", "size_t": "1", "unsigned long": "1", "unsigne
           "spif_char_t": "'a'", "spif_uint8_t": "'a'", "spif_int32_t": "2", "spif_uint32_t": "1", "spif_bool_t": "TRUE", "unsigned char": "0", "char": "'a'", "register size_t": "1",
           "spif_uint16_t": "1", "double": "1.0", "unsigned int": "1", "spif_sockport_t": "1", "register unsigned short": "1", "register spif_int32_t": "2"}
 
+# the other ("valid") arguments also come in their empty state: objects that own no buffer / hold no element yet
+FACT_EMPTY = {
+    "spif_str_t": "spif_str_new()", "spif_ustr_t": "spif_ustr_new()", "spif_mbuff_t": "spif_mbuff_new()", "spif_obj_t": "SPIF_OBJ(spif_str_new())",
+    "spif_array_t": "(spif_array_t) mk_elist(0)", "spif_linked_list_t": "(spif_linked_list_t) mk_elist(1)", "spif_dlinked_list_t": "(spif_dlinked_list_t) mk_elist(2)", "spif_list_t": "mk_elist(0)",
+}
 IDX_TYPES = ("spif_listidx_t", "spif_stridx_t", "spif_ustridx_t", "spif_memidx_t")
 IDX_ALT = ["40", "-1"]          # the other arguments are "valid" for any position value: past the end and negative positions too
 
@@ -182,6 +187,8 @@ def emit(rows, funcs, out_path, pinned_keys):
         if names:
             for alt in IDX_ALT:
                 expanded.append(dict(r, variant=alt, variant_names="/".join(names)))
+        if fn and any(ty in FACT_EMPTY for i, (ty, nm) in enumerate(fn["params"]) if i != r["pos"]):
+            expanded.append(dict(r, empty=True))
     for r in expanded:
         fn = funcs.get(r["func"])
         if not fn:
@@ -205,6 +212,8 @@ def emit(rows, funcs, out_path, pinned_keys):
                 continue
             if ty in FACT:
                 mk, rm, snap = FACT[ty]
+                if r.get("empty") and ty in FACT_EMPTY:
+                    mk = FACT_EMPTY[ty]
                 decl.append("    %s a%d = %s;" % (ty, i, mk))
                 if rm:
                     cleanup.append("    { %s v = a%d; %s; }" % (ty, i, rm))
@@ -251,7 +260,12 @@ def emit(rows, funcs, out_path, pinned_keys):
         body.append("}")
         L += body
         key = "%s#%d" % (r["func"], r["pos"])
-        cases.append((cid, dict(r, param=r["param"] if "variant" not in r else "%s (with %s=%s)" % (r["param"], r["variant_names"], r["variant"])), key in pinned_keys))
+        label = r["param"]
+        if "variant" in r:
+            label = "%s (with %s=%s)" % (r["param"], r["variant_names"], r["variant"])
+        elif r.get("empty"):
+            label = "%s (the other objects empty)" % r["param"]
+        cases.append((cid, dict(r, param=label), key in pinned_keys))
     L.append("const null_case_t NULL_CASES[] = {")
     for cid, r, pinned in cases:
         L.append("    { case_%d, \"%s\", %d, \"%s\", \"%s\", \"%s\", %d }," % (cid, r["func"], r["pos"], r["param"], r["kind"], r["val"].replace("\\", "\\\\").replace("\"", "\\\""), 1 if pinned else 0))
